@@ -44,7 +44,7 @@ func init() {
 		MinEvals:    floor(15000, 300000),
 		MinDistinct: floor(1500, 30000),
 		RequiredCells: func(string) []string {
-			cells := []string{"library-sealed/offered", "library-sealed/rejected", "library-sealed/accepted", "ctor/undef-did", "ctor/short-nonce", "ctor/ok", "go/int-types", "go/uint-types", "go/float", "go/nested", "go/unsupported", "go/out-of-range", "envelope/one-entry", "envelope/three-entries", "envelope/two-payloads", "envelope/other-tag", "envelope/unknown-tag", "accepted", "rejected", "codec/dagcbor", "codec/dagjson", "dec/generic", "dec/typed"}
+			cells := []string{"library-sealed/offered", "library-sealed/rejected", "library-sealed/accepted", "ctor/undef-did", "ctor/root-with-subject-option", "ctor/short-nonce", "ctor/ok", "go/int-types", "go/uint-types", "go/float", "go/nested", "go/unsupported", "go/out-of-range", "envelope/one-entry", "envelope/three-entries", "envelope/two-payloads", "envelope/other-tag", "envelope/unknown-tag", "accepted", "rejected", "codec/dagcbor", "codec/dagjson", "dec/generic", "dec/typed"}
 			for _, m := range []string{"dropped", "renamed", "null", "retyped", "out-of-range", "extra-field"} {
 				cells = append(cells, "mut/"+m)
 			}
@@ -539,13 +539,27 @@ func runC10(w *mon.W) {
 				opts = append(opts, delegation.WithNonce(gen.Bytes(r, nl)))
 			}
 			var d *delegation.Token
-			if it%3 == 0 {
+			switch {
+			case it%6 == 0:
 				d, err = delegation.Root(iss, aud, cmd, policy.Policy{}, opts[1:]...)
-			} else {
+			case it%6 == 3:
+				// Root given a subject of the caller's choice (undefined, or another principal), before
+				// or after the other options: a root delegation is about its issuer, whatever was passed
+				ro := opts
+				if it%12 == 3 {
+					ro = append(append([]delegation.Option{}, opts[1:]...), opts[0])
+				}
+				d, err = delegation.Root(iss, aud, cmd, policy.Policy{}, ro...)
+				w.Cover("ctor/root-with-subject-option")
+			default:
 				d, err = delegation.New(iss, aud, cmd, policy.Policy{}, opts...)
 			}
 			if err == nil {
 				tk = d
+				if it%3 == 0 && d.Subject() != d.Issuer() {
+					w.Violate("constructor/root-subject-is-not-the-issuer", fmt.Sprintf("delegation.Root returned a token whose subject (%s) is not its issuer (%s) (undef case %d)", d.Subject(), d.Issuer(), undef),
+						map[string]any{"undef_case": undef, "subject_option_given": it%6 == 3, "fields": gen.Fields(d).String()})
+				}
 			}
 		} else {
 			var opts []invocation.Option
